@@ -113,6 +113,32 @@ def on_em_iteration(ctx, p):
     opts = getattr(ctx, 'case_opts', None) or {}
     it = p['iteration']
     aff = p.get('affiliation')
+    # domain of C01 / C09: every class keeps (saliency weighted) mass; once a class has lost it the rest of this
+    # fit is outside the stated domain and is not judged
+    if it == 0:
+        ctx.domain_left = False
+    if aff is not None and not getattr(ctx, 'domain_left', False):
+        a = np.asarray(aff, dtype=np.float64)
+        sal = opts.get('saliency')
+        if sal is not None and np.shape(sal) == a.shape[:-2] + a.shape[-1:]:
+            a = a * np.asarray(sal)[..., None, :]
+        with np.errstate(all='ignore'):
+            mass = a.sum(axis=-1)
+        if not np.isfinite(mass).all() or mass.min() <= 1e-12 * a.shape[-1]:
+            ctx.domain_left = True
+            R.count('trace: a class lost all its mass (rest of the fit not judged)')
+    if getattr(ctx, 'domain_left', False):
+        return
+    # a class with exactly zero prior weight somewhere (frame-wise tied weights from a hard start) is "a class without
+    # mass" for those observations: the posterior routine's own contract (C01.M1) judges such calls with its float-range
+    # guard; the trace check does not demand normalisation there
+    zero_prior = bool(getattr(ctx, 'prev_zero_weight', False))
+    try:
+        ctx.prev_zero_weight = bool((np.asarray(p['model'].weight, dtype=float) == 0).any())
+    except Exception:
+        ctx.prev_zero_weight = False
+    if it == 0:
+        zero_prior = False
     if it >= 1 and aff is not None and opts.get('check_trace_affiliation', True):
         eps = opts.get('affiliation_eps')
         if eps is None:
@@ -130,14 +156,16 @@ def on_em_iteration(ctx, p):
                 # the column sums can be judged against the mask
                 mask = np.broadcast_to(mask.any(axis=-2, keepdims=True), mask.shape)
             conds.check_affiliation(R, 'C01.M4', aff, eps=eps, mask=mask, key='trace-affiliation',
-                                    where=f'iteration {it}')
+                                    where=f'iteration {it}', normalised=not zero_prior)
+            if zero_prior:
+                R.count('trace: preceding model has zero prior weights (normalisation not demanded)')
     if 'C09' in ctx.arm:
         from vmon import domain
         if ctx.case_opts is None:
             R.seen('C09.trace')
             domain._finite_fields(R, 'C09.trace', p['model'], f'iteration {it}')
         else:
-            domain.check_model(R, p['model'], opts, monitor='C09.trace', where=f'iteration {it}')
+            domain.check_model(R, p['model'], dict(opts, zero_columns_ok=True) if zero_prior else opts, monitor='C09.trace', where=f'iteration {it}')
 
 
 def install(ctx, arm):
